@@ -682,7 +682,11 @@ macro_rules! boolean_array_impl {
                 type Output = Self;
 
                 fn not(self) -> Self::Output {
-                    Self(self.0.not())
+                    let mut inverted = self.0.not();
+                    // The unused high bits of the last byte take part in equality and in
+                    // serialization, so they must stay zero.
+                    inverted[$bits..].fill(false);
+                    Self(inverted)
                 }
             }
 
